@@ -63,6 +63,21 @@ theorem pres_step {P : State R → Prop} (k n : String) (eff : State R → State
 theorem pres_readStep {P : State R → Prop} (k n : String) : Pres (onSt P) (readStep (R := R) k n) :=
   pres_step k n id (fun _ h => h)
 
+theorem pres_renew {P : State R → Prop} : Pres (onSt P) (renew (R := R)) := by
+  intro flt ms h
+  rw [wp_renew]
+  show P (renewMS flt ms).st
+  rw [renewMS_st]; exact h
+
+theorem onSt_setDet {P : State R → Prop} : ∀ (ms : MS R) (b : Bool), onSt P ms → onSt P (setDet ms b) := fun _ _ h => h
+
+/-- running detached does not matter for a predicate that does not look at the flag -/
+theorem pres_withDetached {α} {I : MS R → Prop} {m : M R α} (hI : ∀ ms b, I ms → I (setDet ms b))
+    (hm : Pres I m) : Pres I (withDetached m) := by
+  intro flt ms h
+  rw [wp_withDetached]
+  exact wp_mono (hm flt (setDet ms true) (hI ms true h)) (fun _ ms' h' => hI ms' ms.detached h')
+
 theorem pres_emit {P : State R → Prop} (m : Msg R) : Pres (onSt P) (emit (R := R) m) := fun _ _ h => h
 
 /-- continue with the state that was read -/
@@ -185,12 +200,14 @@ theorem pres_removeLike (body : Wl R → M R Unit) (failMsg : Bool) (firstNode :
   · apply pres_forEach
     intro g _
     unfold removeOnNode
+    apply pres_bind pres_renew; intro _
     apply pres_bind (pres_attempt (pres_readStep _ _))
     intro ok
     apply pres_ite
     · apply pres_forEach
       intro id _
       unfold removeOne
+      apply pres_bind pres_renew; intro _
       apply pres_bind
       · apply pres_attempt
         exact pres_withWorkloadLocked _ _ _ (fun w flt ms h hw _ => hb w flt ms h hw)
@@ -210,6 +227,7 @@ theorem pres_dissociate (firstNode : String) (groups : List (String × List Nat)
   pres_removeLike _ _ _ _ pres_dissociateTxn
 
 theorem pres_txn {I : MS R → Prop} {c t : M R Unit} {rb : Option (Bool → M R Unit)}
+    (hI : ∀ ms b, I ms → I (setDet ms b))
     (hc : Pres I c) (ht : Pres I t) (hrb : ∀ f, rb = some f → ∀ b, Pres I (f b)) : Pres I (txn c t rb) := by
   intro flt ms h
   rw [wp_txn]
@@ -219,17 +237,21 @@ theorem pres_txn {I : MS R → Prop} {c t : M R Unit} {rb : Option (Bool → M R
   | fail =>
     cases rb with
     | none => exact h1
-    | some f => exact hrb f rfl true flt ms1 h1
+    | some f => exact pres_withDetached hI (hrb f rfl true) flt ms1 h1
   | ok u =>
-    simp only [txnK1_ok]
-    apply wp_mono (ht flt ms1 h1)
-    intro o2 ms2 h2
-    cases o2 with
-    | ok _ => exact h2
-    | fail =>
-      cases rb with
-      | none => exact h2
-      | some f => exact hrb f rfl false flt ms2 h2
+    cases rb with
+    | none =>
+      simp only [txnK1_ok_none]
+      apply wp_mono (pres_withDetached hI ht flt ms1 h1)
+      intro o2 ms2 h2
+      cases o2 <;> exact h2
+    | some f =>
+      simp only [txnK1_ok_some]
+      apply wp_mono (ht flt ms1 h1)
+      intro o2 ms2 h2
+      cases o2 with
+      | ok _ => exact h2
+      | fail => exact pres_withDetached hI (hrb f rfl false) flt ms2 h2
 
 theorem pres_onThenFailure {I : MS R → Prop} {m : M R Unit} (hm : Pres I m) :
     ∀ f, onThenFailure m = some f → ∀ b, Pres I (f b) := by
@@ -247,7 +269,7 @@ theorem pres_setNode (n : String) (newCap : Option R) (rr : Bool) : Pres (onSt I
   apply pres_bind (pres_readStep _ _); intro _
   apply pres_bind (pres_readStep _ _); intro _
   apply pres_bind (fun _ _ h => h); intro s
-  apply pres_txn
+  apply pres_txn onSt_setDet
   · cases newCap with
     | none => exact pres_pure _ _
     | some c => exact pres_step _ _ _ (fun s h => inv_of_eq h rfl rfl (Nat.le_refl _))
@@ -380,7 +402,7 @@ def ReplaceGuard (flt : Option Addr) : Prop :=
   ∀ a, flt = some a → a.kind ≠ "storeRemoveWorkload" ∧ a.kind ≠ "engineRemove"
 
 theorem hit_of_kind_ne {flt : Option Addr} {k : String} (h : ∀ a, flt = some a → a.kind ≠ k)
-    (f : Bool) (c : List (String × String × Nat)) (n : String) : hit flt f c k n = false := by
+    (f : Bool) (c : List (String × String × Nat)) (n : String) : hit flt f c false k n = false := by
   unfold hit
   cases flt with
   | none => simp
@@ -388,6 +410,10 @@ theorem hit_of_kind_ne {flt : Option Addr} {k : String} (h : ∀ a, flt = some a
     have := h a rfl
     have hne : a ≠ ⟨k, n, count c k n⟩ := fun e => this (by rw [e])
     simp [hne]
+
+/-- a detached step is never made with the caller's ended context -/
+theorem cxOf_detached {ms : MS R} (h : ms.detached = true) (k n : String) : cxOf ms k n = false := by
+  simp [cxOf, h]
 
 theorem filter_fresh {s : State R} (h : ∀ w ∈ s.wls, w.id < s.next) :
     s.wls.filter (fun w => w.id != s.next) = s.wls := by
@@ -424,14 +450,15 @@ theorem inv_swap {s s' : State R} {w : Wl R} (h : Inv s) (hw : w ∈ s.wls)
     refine (consistent_congr (a := s') (b := rmWl w.id (addWl ⟨s.next, w.node, w.res⟩ s)) (by simp [hu]) ?_).mpr this
     rw [hws]; rfl
 
-theorem doRemoveWorkload_guarded (w : Wl R) (flt : Option Addr) (hG : ReplaceGuard flt) (ms : MS R) :
+theorem doRemoveWorkload_guarded (w : Wl R) (flt : Option Addr) (hG : ReplaceGuard flt) (ms : MS R)
+    (hdet : ms.detached = true) :
     wp (doRemoveWorkload w) (fun o ms' => o = .ok () ∧ ms'.st.usage = ms.st.usage ∧
       ms'.st.wls = ms.st.wls.filter (fun x => x.id != w.id) ∧ ms'.st.next = ms.st.next) flt ms := by
   unfold doRemoveWorkload
   wp_simp
-  rw [hit_of_kind_ne (fun a e => (hG a e).1)]
+  rw [cxOf_detached hdet, hit_of_kind_ne (fun a e => (hG a e).1)]
   simp only [Bool.false_eq_true, if_false]
-  rw [hit_of_kind_ne (fun a e => (hG a e).2)]
+  rw [cxOf_detached (by simpa using hdet), hit_of_kind_ne (fun a e => (hG a e).2)]
   simp
 
 theorem wp_withWorkloadLocked (node : String) (id : Nat) (body : Wl R → M R Unit) (flt : Option Addr)
@@ -475,9 +502,10 @@ theorem doReplaceWorkload_inv (w : Wl R) (flt : Option Addr) (hG : ReplaceGuard 
     have hstart : Pres (onSt Inv) (step "engineStart" w.node (setRunning (R := R) w.id true)) :=
       pres_step _ _ _ (fun s hs => inv_of_eq hs rfl rfl (Nat.le_refl _))
     rw [wp_txn, wp_step]
+    have hstartD := pres_withDetached (I := onSt Inv) onSt_setDet hstart
     split
-    · exact hstart flt _ (by simpa [onSt] using h1')
-    · simp only [txnK1_ok]
+    · exact hstartD flt _ (by simpa [onSt] using h1')
+    · simp only [txnK1_ok_some]
       have h2 : Inv (okMS ms1 "engineStop" w.node (setRunning w.id false)).st :=
         inv_of_eq h1' rfl rfl (Nat.le_refl _)
       have hw2 : w ∈ (okMS ms1 "engineStop" w.node (setRunning w.id false)).st.wls := hw1
@@ -485,7 +513,7 @@ theorem doReplaceWorkload_inv (w : Wl R) (flt : Option Addr) (hG : ReplaceGuard 
       refine wp_mono (Q := fun _ ms' => Inv ms'.st) ?_ (fun o ms' h' => by
         cases o with
         | ok _ => exact h'
-        | fail => exact hstart flt ms' h')
+        | fail => exact hstartD flt ms' h')
       -- inner transaction, no rollback
       rw [wp_txn, wp_bind]
       apply wp_mono (deployOne_spec w.node w.res false flt ms2)
@@ -493,11 +521,12 @@ theorem doReplaceWorkload_inv (w : Wl R) (flt : Option Addr) (hG : ReplaceGuard 
       rcases h3 with ⟨rfl, hp⟩ | ⟨rfl, hp⟩
       · obtain ⟨_, _, hu3, _, _, _, _, _, hp⟩ := hp
         rcases hp with ⟨_, hws3, hn3, _⟩ | ⟨hb, _⟩
-        · simp only [wpK_ok, wp_pure, txnK1_ok]
-          apply wp_mono (doRemoveWorkload_guarded w flt hG ms3)
+        · simp only [wpK_ok, wp_pure, txnK1_ok_none]
+          rw [wp_withDetached]
+          apply wp_mono (doRemoveWorkload_guarded w flt hG (setDet ms3 true) rfl)
           intro o4 ms4 h4
           obtain ⟨rfl, hu4, hws4, hn4⟩ := h4
-          simp only [txnK2_ok]
+          simp only [txnK2_ok, setDet_st] at hu4 hws4 hn4 ⊢
           refine inv_swap h2 hw2 (hu4.trans hu3) (by rw [hws4, hws3]) ?_
           rw [hn4, hn3]; omega
         · cases hb
